@@ -76,6 +76,30 @@ func (c *Ctx) checkNondetCalls() {
 					}
 				}
 			}
+			// through a private helper of the package whose every result is the seed variable
+			if call, isCall := cc.Args[0].(*ssa.Call); isCall && !okArg {
+				if g := call.Common().StaticCallee(); g != nil && g.Pkg == s.fn.Pkg && !token.IsExported(g.Name()) && len(g.Blocks) > 0 && g.Signature.Results().Len() == 1 {
+					all, n := true, 0
+					allInstrs(g, func(in ssa.Instruction) {
+						ret, ok := in.(*ssa.Return)
+						if !ok {
+							return
+						}
+						for _, lf := range phiLeaves(ret.Results[0]) {
+							n++
+							u, ok := lf.(*ssa.UnOp)
+							if !ok || u.Op != token.MUL {
+								all = false
+								continue
+							}
+							if gl, ok := u.X.(*ssa.Global); !ok || gl.Name() != "seed" {
+								all = false
+							}
+						}
+					})
+					okArg = all && n > 0
+				}
+			}
 			L.Check(okArg && nSeed == 1, "nondet-source", name, "rand.Seed", pos, "single seeding site, argument is the --seed variable",
 				fmt.Sprintf("rand.Seed site #%d (argument is the seed variable: %v); the stream must be seeded exactly once from --seed", nSeed, okArg))
 		default:
